@@ -89,6 +89,9 @@ fn item_tok(re: &ldap3::ResultEntry) -> i64 {
 #[derive(Clone, Debug)]
 struct Tap {
     o: usize,
+    /// fail on the n-th entry seen (0 = never): an adapter written by the user may return an error at any point
+    fail_at: usize,
+    entries: usize,
 }
 
 #[async_trait::async_trait]
@@ -105,6 +108,12 @@ where
         if let Ok(Some(re)) = &r {
             let typ = if re.is_ref() { "ref" } else if re.is_intermediate() { "int" } else { "ent" };
             emit(format!("\"ev\":\"Inner\",\"o\":\"o{}\",\"typ\":\"{}\",\"tok\":{}", self.o, typ, item_tok(re)));
+            if typ == "ent" {
+                self.entries += 1;
+                if self.entries == self.fail_at {
+                    return Err(LdapError::AdapterInit("tap: scripted adapter failure".into()));
+                }
+            }
         }
         r
     }
@@ -133,6 +142,8 @@ struct OpPlan {
     finish_after: usize,
     /// extra next() calls after the end of the stream
     extra_next: usize,
+    /// adapted searches: the innermost adapter fails on this entry (0 = never)
+    tap_fail_at: usize,
     /// the caller walks away without telling the library: a single operation's future is dropped after this many ms by an
     /// outer select!, a search stream is dropped instead of finished (0 = never)
     walk_away: u64,
@@ -218,7 +229,7 @@ async fn actor_inner(p: OpPlan, ldap: &mut Ldap, completed: &std::sync::Arc<std:
         Kind::Search => {
             let started = if p.adapted {
                 let chain: Vec<Box<dyn ldap3::adapters::Adapter<&str, Vec<&str>>>> =
-                    vec![Box::new(ldap3::adapters::EntriesOnly::new()), Box::new(Tap { o })];
+                    vec![Box::new(ldap3::adapters::EntriesOnly::new()), Box::new(Tap { o, fail_at: p.tap_fail_at, entries: 0 })];
                 ldap.streaming_search_with(chain, "dc=x", Scope::Subtree, "(a=b)", vec!["cn"]).await
             } else {
                 ldap.streaming_search("dc=x", Scope::Subtree, "(a=b)", vec!["cn"]).await
@@ -250,6 +261,7 @@ async fn actor_inner(p: OpPlan, ldap: &mut Ldap, completed: &std::sync::Arc<std:
                             Ok(Some(re)) => ("item", item_tok(re), false),
                             Ok(None) => (if active { "done" } else { "noop" }, 0, true),
                             Err(LdapError::Timeout { .. }) => ("timeout", 0, true),
+                            Err(LdapError::AdapterInit(_)) => ("aderr", 0, true),
                             Err(_) => ("closed", 0, true),
                         };
                         emit(format!(
@@ -305,10 +317,11 @@ struct Profile {
     many_items: bool,
     stall: bool,
     walk_away: bool,
+    aderr: bool,
 }
 
 fn profile(name: &str) -> Profile {
-    let mut p = Profile { timeouts: false, faults: false, orphans: false, burst: false, unbind: false, many_items: false, stall: false, walk_away: false };
+    let mut p = Profile { timeouts: false, faults: false, orphans: false, burst: false, unbind: false, many_items: false, stall: false, walk_away: false, aderr: false };
     match name {
         "plain" => {}
         "timeouts" => p.timeouts = true,
@@ -324,6 +337,10 @@ fn profile(name: &str) -> Profile {
         "long" => p.many_items = true,
         "stall" => {
             p.stall = true;
+            p.timeouts = true
+        }
+        "aderr" => {
+            p.aderr = true;
             p.timeouts = true
         }
         "drops" => {
@@ -500,6 +517,7 @@ fn run_scenario(seed: u64, prof: &Profile, out: &mut Vec<String>, rep: &mut Repo
                     target,
                     finish_after: if rng.gen_bool(0.3) { rng.gen_range(0..3) } else { usize::MAX },
                     extra_next: if rng.gen_bool(0.2) { 1 } else { 0 },
+                    tap_fail_at: if prof.aderr && kind == Kind::Search && rng.gen_bool(0.5) { rng.gen_range(1..3) } else { 0 },
                     walk_away: if prof.walk_away && matches!(kind, Kind::Single | Kind::Search) && rng.gen_bool(0.4) { rng.gen_range(1..4) } else { 0 },
                     cmds: None,
                     status: None,
@@ -570,10 +588,24 @@ fn run_scenario(seed: u64, prof: &Profile, out: &mut Vec<String>, rep: &mut Repo
             } else if choice < 84 && prof.faults && net_up && !faulted {
                 net_up = false;
                 faulted = true;
-                resume(&io, false); // the fault ends the stall: the mock accepts writes on a half-closed connection
-                stalled = false;
-                match rng.gen_range(0..4) {
-                    0 => {
+                let searches: Vec<Pending> = pending.iter().filter(|p| p.app == 3).cloned().collect();
+                let fault_kind = rng.gen_range(0..5);
+                if !(fault_kind == 4 && !searches.is_empty()) {
+                    resume(&io, false); // the fault ends the stall: the mock accepts writes on a half-closed connection
+                    stalled = false;
+                }
+                match fault_kind {
+                    4 if !searches.is_empty() => {
+                        // a SearchResultDone whose body is not an LDAPResult (resultCode and matchedDN only), in a well-formed
+                        // envelope, under the ID of a pending search; the server considers the search answered; the transport stays up
+                        let p = searches[rng.gen_range(0..searches.len())].clone();
+                        emit(format!("\"ev\":\"SrvBadDone\",\"id\":{}", p.id));
+                        let bytes = ber::message(p.id, ber::tlv(0x65, &ber::cat(&[ber::tlv(0x0a, &[0]), ber::octets(b"")])), None);
+                        push_chunked(&io, &bytes, &mut rng);
+                        pending.retain(|x| x.id != p.id);
+                        net_up = true;
+                    }
+                    0 | 4 => {
                         emit("\"ev\":\"SrvClose\",\"how\":\"eof\"".to_string());
                         io.push(Item::Eof);
                     }
@@ -646,8 +678,14 @@ fn run_scenario(seed: u64, prof: &Profile, out: &mut Vec<String>, rep: &mut Repo
             settle().await;
         }
         if net_up {
+            let done_ids = completed.lock().unwrap().clone();
             for p in pending.clone() {
                 if p.abandoned {
+                    continue;
+                }
+                // a search the client is through with (finished early, timed out, failed) is often never completed by the
+                // server: what it leaves behind must not depend on a SearchResultDone that may never come
+                if p.app == 3 && done_ids.contains(&p.id) && rng.gen_bool(0.5) {
                     continue;
                 }
                 tok += 1;
@@ -805,6 +843,7 @@ fn run_script(n: u64, script: &[serde_json::Value], out: &mut Vec<String>, rep: 
                         target,
                         finish_after: usize::MAX,
                         extra_next: 0,
+                        tap_fail_at: 0,
                         walk_away: 0,
                         cmds: Some(std::sync::Arc::new(tokio::sync::Mutex::new(rx))),
                         status: Some(status.clone()),
@@ -888,6 +927,21 @@ fn run_script(n: u64, script: &[serde_json::Value], out: &mut Vec<String>, rep: 
                     io.push(Item::Eof);
                     net_up = false;
                     resume(&io, false);
+                }
+                "baddone" => {
+                    let id = slots.get(&oname).map(|s| s.id).unwrap_or(-1);
+                    match pending.iter().position(|p| p.id == id && p.app == 3) {
+                        Some(i) if net_up => {
+                            emit(format!("\"ev\":\"SrvBadDone\",\"id\":{}", id));
+                            let bytes = ber::message(id, ber::tlv(0x65, &ber::cat(&[ber::tlv(0x0a, &[0]), ber::octets(b"")])), None);
+                            push_chunked(&io, &bytes, &mut rng);
+                            pending.remove(i);
+                        }
+                        _ => {
+                            followed = false;
+                            break;
+                        }
+                    }
                 }
                 "stall" => io.stall_writes(0),
                 "resume" => resume(&io, true),
@@ -1377,6 +1431,42 @@ fn main() {
         }
         f.flush().unwrap();
         rep.write(&a[5]);
+        return;
+    }
+    if a.len() >= 5 && a[1] == "flood" {
+        // conn-run flood <out.ndjson> <n> <report>: a search whose caller does not read while the server sends n items (more
+        // than any plausible internal queue bound), another operation in between, then the caller reads everything
+        let n: usize = a[3].parse().unwrap();
+        let mut rep = Report::new("conn-flood");
+        let mut out = vec![];
+        for (k, adapted) in [(1u64, false), (2u64, true)] {
+            let mut sc: Vec<serde_json::Value> = vec![json!({"a": "start", "o": "o1", "k": "search", "t": 0, "ad": adapted, "tg": "none"})];
+            for _ in 0..n {
+                sc.push(json!({"a": "srv", "o": "o1", "typ": "ent"}));
+            }
+            sc.push(json!({"a": "start", "o": "o2", "k": "single", "t": 0, "ad": false, "tg": "none"}));
+            sc.push(json!({"a": "srv", "o": "o2", "typ": "res"}));
+            for _ in 0..20 {
+                sc.push(json!({"a": "next", "o": "o1"}));
+            }
+            for _ in 0..5 {
+                sc.push(json!({"a": "srv", "o": "o1", "typ": "ent"}));
+            }
+            sc.push(json!({"a": "srv", "o": "o1", "typ": "done"}));
+            for _ in 0..(n + 5 - 20 + 1) {
+                sc.push(json!({"a": "next", "o": "o1"}));
+            }
+            sc.push(json!({"a": "finish", "o": "o1"}));
+            let followed = run_script(k, &sc, &mut out, &mut rep);
+            rep.count(if followed { "flood_scripts_followed" } else { "flood_scripts_cut_short" });
+        }
+        rep.add("flood_items", (2 * (n + 5)) as u64);
+        let mut f = std::io::BufWriter::new(std::fs::File::create(&a[2]).unwrap());
+        for l in &out {
+            writeln!(f, "{}", l).unwrap();
+        }
+        f.flush().unwrap();
+        rep.write(&a[4]);
         return;
     }
     if a.len() >= 4 && a[1] == "alloc" {
